@@ -46,7 +46,14 @@ func main() {
 	for {
 		line, err := in.ReadBytes('\n')
 		if len(line) > 1 {
+			if probeBase == "" {
+				probeBase = probeNow()
+			}
 			res := handle(line)
+			if now := probeNow(); now != probeBase && res != nil {
+				res["probeDiff"] = "the fixed probe gave\n" + probeBase + "\nwhen the process started and gives\n" + now + "\nafter this case"
+				probeBase = now // report the case that changed it, once
+			}
 			if e := enc.Encode(res); e != nil {
 				fmt.Fprintln(os.Stderr, "encode error:", e)
 			}
